@@ -13,7 +13,9 @@ from common import Enc
 
 KINDS = ["CONSTANT", "CONSTANT", "CHAR_CONST", "STRING"]
 SHAPES = ["C11-hex-b-digits", "C11-hex-e-suffix-sign", "C11-hexfloat-empty-part", "C11-hexfloat-hex-suffix",
-          "C11-universal-character-name", "C11-long-hex-escape-char"]
+          "C11-universal-character-name", "C11-long-hex-escape-char"]      # positions = the driver's c11_shapes answer
+# repaired in the source: the shape is still computed (Spec/CConst.shape_k1), its id never suppresses anything any more
+REPAIRED = {"C11-hex-b-digits"}
 
 
 def impl_one_ok(ty, w, rest):
@@ -158,7 +160,7 @@ def run(run, tier, seed, replay=None):
     def report_accept(kind, w, rest, impl_r, origin):
         sh = shapes(drv, w, rest)
         data = {"kind": KINDS[kind], "w": w, "rest": rest, "origin": origin, "impl": repr(impl_r)[:600]}
-        fid = next((SHAPES[i] for i, v in enumerate(sh) if v), None)
+        fid = next((SHAPES[i] for i, v in enumerate(sh) if v and SHAPES[i] not in REPAIRED), None)
         return run.violation("valid-constant-not-accepted", data, finding_id=fid)
 
     if replay is not None:
@@ -229,8 +231,7 @@ def run(run, tier, seed, replay=None):
             ok, r = impl_diag(name, w, rest)
             hist["random-reject:" + name] = hist.get("random-reject:" + name, 0) + 1
             if not ok:
-                # a hexadecimal constant of the known shape 0[xX][bB]+[0-9] is mis-split before its family's test applies
-                fid = "C11-hex-b-digits" if shapes(drv, w, rest)[0] else None
+                fid = None      # (the shape 0[xX][bB]+[0-9], once mis-split before its family's test applied, is repaired)
                 found |= run.violation("malformed-constant-not-reported", {"name": name, "w": w, "rest": rest, "impl": repr(r)[:600]},
                                        finding_id=fid)
         run.count("random members of the malformed families", m, len(seen))
